@@ -55,7 +55,7 @@ package snapshot
 //@   requires s != nil && s.r != nil && len(s.lenBuff) == 8 && s.lenBuff.arr != p.arr
 //@   requires [fits] blen(s.r.rest) >= 8 ==> unle64(bsub(s.r.rest, 0, 8)) <= len(p)
 //@   ensures [C18.frame.read] err == nil ==> blen(old(s.r.rest)) >= 8 && n == unle64(bsub(old(s.r.rest), 0, 8)) && 8 + n <= blen(old(s.r.rest)) && bytesOf(p[:n]) == bsub(old(s.r.rest), 8, n) && s.r.rest == bsub(old(s.r.rest), 8 + n, blen(old(s.r.rest)) - 8 - n)
-//@   modifies s.r.rest, elems(s.lenBuff), elems(p)
+//@   modifies s.r.rest, s.r.busy, elems(s.lenBuff), elems(p)
 
 // what was framed is what is read back: for a stream that starts with frame(m), Read's postcondition
 // yields exactly m and leaves exactly the remainder
